@@ -294,3 +294,19 @@ Definition chunk_rel_path (tmpl : list tpart) (hash ext : path) : path :=
   render (tmpl ++ [(ext, None)]) [SL] chunk_name hash (drop_dot ext).
 Definition chunk_out_path (outdir : path) (tmpl : list tpart) (hash ext : path) : path :=
   fs_join outdir (chunk_rel_path tmpl hash ext).
+
+(* ---- side files of a chunk (linker generateChunksInParallel): the external
+   source map and the linked/external legal comments sit next to the chunk ---- *)
+Definition map_suffix : path := [46; 109; 97; 112].                                  (* ".map" *)
+Definition legal_suffix : path := [46; 76; 69; 71; 65; 76; 46; 116; 120; 116].       (* ".LEGAL.txt" *)
+Definition side_out_path (outdir rel suffix : path) : path := fs_join outdir (rel ++ suffix).
+
+(* ---- outfile mode (linker computeChunks: "If the output path was configured
+   explicitly, use it verbatim" - verbatim as the [name] and the extension of
+   the entry template; AbsOutputDir is the directory of the output file) ---- *)
+Definition outfile_rel_path (tmpl : list tpart) (outfile hash : path) : path :=
+  let base := fs_base outfile in
+  let ext := fs_ext base in
+  render (tmpl ++ [(ext, None)]) [SL] (strip_ext base) hash (drop_dot ext).
+Definition outfile_out_path (tmpl : list tpart) (outfile hash : path) : path :=
+  fs_join (fs_dir outfile) (outfile_rel_path tmpl outfile hash).
